@@ -2,6 +2,7 @@
 //! msimc — bounded-exhaustive model checking of rust-msi properties C01..C20.
 //! Usage: msimc <ID> <quick|thorough> | msimc replay <file> | msimc selftest
 
+mod c10;
 mod c13;
 mod c14;
 mod c17;
@@ -26,6 +27,17 @@ fn main() {
         eprintln!("usage: msimc <ID> <quick|thorough> | replay <file> | selftest");
         std::process::exit(2);
     }
+    let code = match report::catch(|| run(&args)) {
+        Ok(c) => c,
+        Err(p) => {
+            eprintln!("MACHINERY: harness panicked: {}", p);
+            2
+        }
+    };
+    std::process::exit(code);
+}
+
+fn run(args: &[String]) -> i32 {
     let code = match args[1].as_str() {
         "replay" => {
             let data = std::fs::read(&args[2]).expect("read replay file");
@@ -35,6 +47,7 @@ fn main() {
             let r = &doc["replay"];
             match doc["property"].as_str().unwrap_or("") {
                 "C13" => c13::replay(r),
+                "C10" if r["kind"] == "c10-case" => c10::replay(r),
                 "C14" => c14::replay(r),
                 "C17" => c17::replay(r),
                 "C18" => c18::replay(r),
@@ -63,6 +76,8 @@ fn main() {
                 "C04" => e1checks::run_c04(tier),
                 "C05" => e1checks::run_c05(tier),
                 "C08" => e1checks::run_c08(tier),
+                "C11" => e1checks::run_c11(tier),
+                "C10" => c10::run(tier),
                 _ => {
                     eprintln!("unknown check {}", id);
                     2
@@ -70,5 +85,5 @@ fn main() {
             }
         }
     };
-    std::process::exit(code);
+    code
 }
